@@ -96,6 +96,12 @@ def _take_view(flat, rec, view: str, split):
         piece = flat[start::step][:n]
     elif view in ("win", "chunk"):
         piece = flat[start : start + n]
+    elif view == "colmajor":
+        # the buffer holds the elements in column-major order: a transposed (Fortran-contiguous) array of shape dims
+        if len(dims) < 2:
+            return flat.reshape(dims)
+        rev = flat.reshape(dims[::-1])
+        return rev.permute(*range(len(dims) - 1, -1, -1)) if hasattr(rev, "permute") else rev.T
     else:
         piece = flat
     return piece.reshape(dims)
